@@ -30,7 +30,7 @@ def run(ctx, env):
     ctx.rule("R11.3", "no per-call state: loop-carried user locals are only the input cursor (&[u8]), the owned remainder (Vec<u8>) and the result vector; `self` is written only at the cache write sites of C06")
     ctx.rule("R11.5", "self-delimiting packets cannot read beyond their announced end: IPFIX sets only see the take(length-16) slice (length constant = header size; call-graph dominator), V5/V7 consume header + count(record)")
     ctx.rule("R11.4", "split point = the version parser's own remainder; continue iff it is non-empty (C02 R2.4 / R2.5 re-evaluated)")
-    body = prog.body("NetflowParser::parse_bytes")
+    body = role_body(prog, "NetflowParser::parse_bytes")
     if not ctx.anchor("R11.1", "NetflowParser::parse_bytes", body):
         return
     ppaths = c02.parsing_paths(prog)
@@ -56,6 +56,8 @@ def run(ctx, env):
     # R11.2
     ret = sl.local(0)
     r = peel(ret, mutlocal=False)
+    if r[0] == "phi" and r[1] and all(peel(m, mutlocal=False)[0] == "mutlocal" for m in r[1]) and len(set(peel(m, mutlocal=False)[1] for m in r[1])) == 1:
+        r = peel(r[1][0], mutlocal=False)       # several `return results;` sites returning the same accumulator
     rl = r[1] if r[0] == "mutlocal" else None
     ctx.ob("R11.2", body.path, "returns-the-accumulator", rl is not None, "return value = %s" % canon(r)[:120])
     if rl is not None:
@@ -69,10 +71,15 @@ def run(ctx, env):
                 x = x[1]
             if not (x[0] == "mutlocal" and x[1] == rl):
                 continue
-            if c.npath in ("std::vec::Vec::push",):
+            opt_extend = c.nsyn == "std::iter::Extend::extend" and len(t.get("argtys") or []) > 1 and t["argtys"][1].startswith("std::option::Option<NetflowPacket>")
+            if c.npath in ("std::vec::Vec::push",) or opt_extend:
                 npush += 1
                 v = peel(an.op(body, t["args"][1]))
                 vx = peel(an.opx(body, t["args"][1]))       # private constructor helpers inlined
+                if opt_extend:
+                    # `results.extend(opt)` appends the payload when opt is Some and nothing otherwise
+                    v = peel(an.simp(an.interp._through("some", an.op(body, t["args"][1]))))
+                    vx = peel(an.expand(an.interp._through("some", an.op(body, t["args"][1]))))
                 if vx[0] == "agg" and vx[1] == "NetflowPacket" and vx[2] == "Error":
                     ctx.ob("R11.2", body.path, "push:error-element", True, "Error element appended", site=body.line(blk))
                     continue
